@@ -288,6 +288,18 @@ def check_add(provider, rnd, count):
         if [str(x) for x in back] != exp:
             fails.append({"witness": {"call": "add", "name": name, "calls": calls, "provider": provider},
                           "detail": f"after add calls {calls!r} the round trip gives {back!r}, expected {exp!r}"})
+    # first-insertion position: adding to a name that is already there moves nothing
+    for names in (["attendee", "summary", "attendee"], ["comment", "dtstart", "comment", "uid", "comment"], ["x-a", "x-b", "X-A", "x-c", "x-b"]):
+        n += 1
+        e = Event()
+        first = []
+        for i, nm in enumerate(names):
+            e.add(nm, datetime(2024, 1, 1 + i, 10, 0) if nm == "dtstart" else f"v{i}")
+            if nm.upper() not in first:
+                first.append(nm.upper())
+        if list(e.keys()) != first:
+            fails.append({"witness": {"call": "add", "name": names[0], "calls": names, "provider": provider},
+                          "detail": f"after add calls for {names!r} the names are kept in the order {list(e.keys())!r}, first insertion gives {first!r}"})
     # UTC forcing
     (berlin, ny), utc = zones(provider)
     for nm in ("dtstamp", "CREATED", "Last-Modified"):
